@@ -788,7 +788,7 @@ def multi_exhaustive(ctx: Ctx, depth3: bool):
             for m1 in MULTI_MACROS:
                 if not (ok(m0, 0) and ok(m1, 1)) or HANGS >= MAX_HANGS:
                     continue
-                thirds = [m for m in MULTI_MACROS[:8] if m] if depth3 else [None]
+                thirds = [MULTI_MACROS[i] for i in (1, 3, 5, 6)] if depth3 else [None]
                 for m2 in thirds:
                     steps = [dict(q, on=0) for q in expand_macros([m0])] + [dict(q, on=1) for q in expand_macros([m1])]
                     if m2 is not None:
@@ -827,7 +827,7 @@ def run_multi(ctx: Ctx):
         for mode in Q3.LIVE_MODES:
             run_multi_history(ctx, refs, steps, "corpus", mode)
     multi_exhaustive(ctx, ctx.thorough())
-    for _ in range(ctx.budget(260, 9000)):
+    for _ in range(ctx.budget(260, 5000)):
         if HANGS >= MAX_HANGS:
             break
         refs, kinds = rand_refs(rng)
@@ -1126,7 +1126,7 @@ def run(ctx: Ctx):
         for mode in Q3.LIVE_MODES:
             run_nfa_history(ctx, n, other, hist, "corpus", mode)
     nfa_cycle_exhaustive(ctx, ctx.thorough())
-    for _ in range(ctx.budget(400, 8000)):
+    for _ in range(ctx.budget(400, 7000)):
         nfa_history(ctx, rng)
 
 
